@@ -638,3 +638,7 @@ def run_s11_s12(chk, repo):
     from rules.C04b import theta_cursor
     S12 = chk.rule('S12', 'ThetaRecord.update: the parameter cursor advances by the repeat count (value)xN of each theta', floor=1)
     theta_cursor(chk, S12, repo)
+    # the writer of $OMEGA / $THETA is shared with C04: its scale-conversion order, classification of old parameters and
+    # comment handling decide what an unedited model looks like after update_source as well
+    from rules.C04b import run_p13_p15
+    run_p13_p15(chk, repo)
